@@ -58,7 +58,7 @@ impl Case17 {
     fn check(&self) -> Result<(bool, bool), (String, String)> {
         let e = |k: &str, d: String| Err((k.to_string(), d));
         // the reference model provides magnitudes and exactness (not the expected values)
-        let mut m = RefState::new(1 << 14);
+        let mut m = RefState::new(crate::histcase::dir_budget_for(&self.hist));
         for s in &self.hist.steps {
             if m.step(s).is_err() {
                 return e("discard", "program not admissible".into());
@@ -293,7 +293,7 @@ pub fn build(cfg: &GenCfg, r: &R17) -> Option<Case17> {
     }
     let root = root?;
     let hist = History { steps };
-    let mut m = RefState::new(1 << 14);
+    let mut m = RefState::new(crate::histcase::dir_budget_for(&hist));
     for s in &hist.steps {
         m.step(s).ok()?;
     }
